@@ -63,6 +63,8 @@ class Opts:
         self.stubs = {}            # callee -> fn(ctx, args) -> value
         self.wide_mul = False      # mul as low half of one 2n-bit product term (shared with oracles)
         self.mul_uf = False        # symbolic*symbolic products as MULW<2w>(ext a, ext b), an uninterpreted function
+        self.int_nowrap = False    # INT mode: unflagged add/sub/mul do not wrap; wrap-around is a side condition to refute
+        self.clz_const = None      # INT mode: ctlz returns this constant; class membership is a side condition to refute
         self.loop_cut = None       # callable(header, init phi values, env) -> symbolic phi values (cut at the loop head)
         self.int_mode = False      # mathematical-integer semantics (IntExec): wrap explicit only where no nsw/nuw
         self.mul_ovf = "exact"     # 'exact' | 'bits' (multiplier-free sufficient condition for no signed overflow)
@@ -1193,6 +1195,10 @@ class IntExec(Exec):
             w = a.w
             fl = ins.flags
             ca, cb = self.const(a), self.const(b)
+            if o.int_nowrap and w > 1 and (op in ("ashr", "sdiv", "srem") or "nsw" in fl):
+                for v in (a, b):
+                    if self.const(v) is None:
+                        self.ub("ENC: value >= 2^%d used as signed (%s)" % (w - 1, op), ins, v.t >= (1 << (w - 1)))
             if w == 1:
                 x, y = a.t, b.t
                 if op == "xor":
@@ -1225,23 +1231,47 @@ class IntExec(Exec):
                 if "nsw" in fl:
                     self.ub("signed-overflow(%s)" % op, ins, z3.Not(self.rng(r, w)))
                     env[ins.dest] = IV(r, w)
+                elif o.int_nowrap:
+                    # fast path: the operation is taken not to wrap, and "it does wrap" becomes a side condition that the
+                    # same query must refute (listed with the UB sites; it is not UB, it only leaves this encoding)
+                    self.ub("ENC: wrap-around outside the INT no-wrap encoding (%s)" % op, ins,
+                            z3.Not(z3.And(r >= -(1 << (w - 1)), r < (1 << w))))
+                    env[ins.dest] = IV(r, w)
                 else:
                     env[ins.dest] = IV(iwrap(r, w), w)
                 return
             if op in ("shl", "lshr", "ashr"):
-                if cb is None or not (0 <= cb < w):
-                    raise Unsupported("symbolic shift count in INT mode")
-                if op == "shl":
-                    r = a.t * (1 << cb)
-                    if "nsw" in fl:
-                        self.ub("signed-overflow(shl)", ins, z3.Not(self.rng(r, w)))
-                        env[ins.dest] = IV(r, w)
-                    else:
-                        env[ins.dest] = IV(iwrap(r, w), w)
-                elif op == "ashr":
-                    env[ins.dest] = IV(a.t / (1 << cb), w)       # Int division by a positive constant floors
+                if cb is not None and not (0 <= cb < w):
+                    # only reachable on a path the domain excludes; the site is recorded and the value is irrelevant
+                    self.ub("shift-count>=width", ins, z3.BoolVal(True))
+                    env[ins.dest] = IV(z3.IntVal(0), w)
+                    return
+                if cb is None:
+                    self.ub("shift-count>=width", ins, z3.Or(b.t < 0, b.t >= w))
+
+                def sh(k):
+                    if op == "shl":
+                        r = a.t * (1 << k)
+                        return r if "nsw" in fl else iwrap(r, w)
+                    if op == "ashr":
+                        return a.t / (1 << k)                      # Int division by a positive constant floors
+                    if o.int_nowrap:
+                        return a.t / (1 << k)                      # non-negative operand (side condition below)
+                    return iwrap((a.t % (1 << w)) / (1 << k), w)
+                if op == "lshr" and o.int_nowrap:
+                    self.ub("ENC: negative operand of lshr outside the INT no-wrap encoding", ins, a.t < 0)
+                if op == "shl" and o.int_nowrap and "nsw" not in fl:
+                    fl = set(fl) | {"nsw"}
+                if cb is not None:
+                    r = sh(cb)
                 else:
-                    env[ins.dest] = IV(iwrap((a.t % (1 << w)) / (1 << cb), w), w)
+                    # symbolic count: case split over the w possible counts (the domain usually pins it down)
+                    r = sh(w - 1)
+                    for k in range(w - 2, -1, -1):
+                        r = z3.If(b.t == k, sh(k), r)
+                if op == "shl" and "nsw" in fl:
+                    self.ub("signed-overflow(shl)", ins, z3.Not(self.rng(r, w)))
+                env[ins.dest] = IV(r, w)
                 return
             if op == "and":
                 if ca is not None and cb is None:
@@ -1269,6 +1299,10 @@ class IntExec(Exec):
             b = self.operand(ins.args[1], env)
             w = a.w
             x, y = a.t, b.t
+            if o.int_nowrap and w > 1 and pred[0] == "s":
+                for v in (a, b):
+                    if self.const(v) is None:
+                        self.ub("ENC: value >= 2^%d used as signed (icmp)" % (w - 1), ins, v.t >= (1 << (w - 1)))
             if pred[0] == "u":
                 x, y = x % (1 << w), y % (1 << w)
             r = {"eq": x == y, "ne": x != y, "slt": x < y, "sle": x <= y, "sgt": x > y, "sge": x >= y,
@@ -1316,13 +1350,29 @@ class IntExec(Exec):
             if name.startswith("llvm.fmuladd") or name.startswith("llvm.fabs"):
                 Exec.call(self, ins, env)
                 return
-            if name.startswith("llvm.ctlz") or name.startswith("llvm.cttz"):
-                # not modelled arithmetically in INT mode: an arbitrary count in [0, w] (sound over-approximation)
-                w = self.ty(ins.ty).w
+            if name.startswith("llvm.ctlz"):
+                # count of leading zeros defined by its specification: 2^(w-1-c) <= x_unsigned < 2^(w-c), c = w for x = 0
+                a = self.operand(ins.args[0], env)
+                w = a.w
+                if o.clz_const is not None:
+                    k = o.clz_const
+                    # case-split hint: the count is the constant k; "the argument is not in that class" is a side condition
+                    self.ub("ENC: ctlz argument outside the case-split class (clz=%d)" % k, ins,
+                            z3.Not(z3.And(a.t >= (1 << (w - 1 - k)), a.t < (1 << (w - k)))))
+                    env[ins.dest] = IV(z3.IntVal(k), w)
+                    return
+                xu = a.t % (1 << w)
                 c = self.fresh("clz", z3.IntSort())
-                self.res.assumes.append(z3.And(c >= 0, c <= w))
+                alts = [z3.And(c == k, xu >= (1 << (w - 1 - k)), xu < (1 << (w - k))) for k in range(w)]
+                alts.append(z3.And(c == w, xu == 0))
+                self.res.assumes.append(z3.Or(alts))
+                zp = self.const(self.operand(ins.args[1], env))
+                if zp == 1:
+                    self.ub("ctlz of zero (poison)", ins, xu == 0)
                 env[ins.dest] = IV(c, w)
                 return
+            if name.startswith("llvm.cttz"):
+                raise Unsupported("cttz in INT mode")
             if name in o.stubs:
                 args = [self.operand(a, env) for a in ins.args]
                 r = o.stubs[name](Ctx(self.res, o, self.pc), args)
